@@ -1,5 +1,7 @@
-"""C19 - uncertainty machinery (spec/Godambe.tla): finite-difference stencils, closed-form
-information for linear Poisson models, bootstrap order, chi-square mixture, the shared spectrum cache.
+"""C19 - uncertainty machinery (spec/Godambe.tla): finite-difference stencils (including parameters on the
+thresholds of the stencil choice), closed-form information for linear Poisson models (including masked and
+folded spectra), bootstrap order, chi-square mixture, the shared spectrum cache (call histories over two
+models, call sequences on one model function object with one argument changed per call).
 
 The driver only generates inputs, calls the real dadi.Godambe functions and records
 what came back; every verdict is TLC's (spec/Trace_Godambe.tla)."""
@@ -267,7 +269,7 @@ def dress(rng, fs, folded, hide):
 def gen_stats_case(rng, eps=None, cfg=None):
     """cfg (all optional) fixes: k, multinom, fixed, nb, eps, adj (bool), nested (0-based list), fullform ('nested' | 'entire'),
     bootform ('spectrum' | 'ndarray'), nestform ('list' | 'array'), plain (scalar-return code paths), n ((lo, hi) sample size),
-    tie (index of a parameter put exactly on the step-rule threshold p*eps == 1e-6), folded (data and bootstraps folded,
+    tie (indices of the parameters put exactly on the step-rule threshold p*eps == 1e-6), folded (data and bootstraps folded,
     model unfolded), dmask / bmask (number of interior entries masked in the data / in each bootstrap)."""
     cfg = cfg or {}
     n = rng.randint(*cfg.get('n', (5, 10)))
@@ -279,9 +281,11 @@ def gen_stats_case(rng, eps=None, cfg=None):
     p0 = [short(rng, 0.5, 3.0, 8) for _ in range(k)]
     if cfg.get('tie') is not None:
         # the same model in other units: parameter a is tiny (exactly on the threshold of the step rule), its component large
-        a, pt = cfg['tie'], tie_param(cfg['eps'])
-        model.B[a] = model.B[a] * float(2.0 ** round(math.log2(p0[a] / pt)))
-        p0[a] = pt
+        # (two parameters in the same units stay comparable: the first-order bounds of the specification are not scale invariant)
+        pt = tie_param(cfg['eps'])
+        for a in cfg['tie']:
+            model.B[a] = model.B[a] * float(2.0 ** round(math.log2(p0[a] / pt)))
+            p0[a] = pt
     mean = np.asarray(model(p0, [n], [10]).data) * (scale if multinom else 1)
     data = poisson_like(rng, mean)
     nb = cfg.get('nb', k + (1 if multinom else 0) + rng.randint(2, 5))      # J (mean of nb rank-one matrices) needs more bootstraps than parameters
@@ -298,7 +302,7 @@ def gen_stats_case(rng, eps=None, cfg=None):
     if not multinom and cfg.get('adj', rng.random() < 0.3):
         adj = [short(rng, 0.8, 1.25, 16) for _ in range(nb)]
     nested = cfg.get('nested', sorted(rng.sample(range(k), rng.randint(1, k))))
-    full = [p0[a] + rng.choice([-1, 1]) * short(rng, 0.125, 0.5, 8) * (p0[a] if cfg.get('tie') is not None else 1) for a in nested]
+    full = [p0[a] + rng.choice([-1, 1]) * short(rng, 0.125, 0.5, 8) * (p0[a] if a in cfg.get('tie', ()) else 1) for a in nested]
     return {'model': model, 'p0': p0, 'multinom': multinom, 'data': data, 'boots': boots, 'eps': eps, 'adj': adj,
             'nested': nested, 'full': full, 'pts': [10], 'fullform': cfg.get('fullform', 'nested'), 'bootform': cfg.get('bootform', 'spectrum'),
             'nestform': cfg.get('nestform', 'list'), 'plain': cfg.get('plain', False), 'cfg': cfg.get('name', ''),
@@ -497,12 +501,14 @@ def stats_records(ctx, rng, nid, det, rnd, ok):
 
 # ---- deterministic blocks added for values on internal thresholds and for masked / folded spectra (every tier; each block has
 # its own generator random.Random(ctx.seed + 1900 + k), so the older parts of the trace do not move)
-TIE_CONFIGS = [       # a parameter exactly on the threshold p*eps == 1e-6 of the step rule, through the statistics built on get_grad
-    {'name': 'k1-threshold-parameter', 'k': 1, 'multinom': False, 'nb': 3, 'eps': 3 * 2.0 ** -8, 'adj': False, 'nested': [0], 'tie': 0,
+TIE_CONFIGS = [       # parameters exactly on the threshold p*eps == 1e-6 of the step rule, through the statistics built on get_grad
+    {'name': 'k1-threshold-parameter', 'k': 1, 'multinom': False, 'nb': 3, 'eps': 3 * 2.0 ** -8, 'adj': False, 'nested': [0], 'tie': [0],
      'ops': ('fim', 'gim', 'lrt', 'score', 'godambe')},
-    {'name': 'k2-threshold-parameter-first', 'k': 2, 'multinom': False, 'nb': 5, 'eps': 2.0 ** -7, 'adj': False, 'nested': [0], 'tie': 0,
-     'ops': ('gim', 'lrt', 'wald', 'score', 'godambe')},
-    {'name': 'k2-threshold-parameter-last-theta-adjusts', 'k': 2, 'multinom': False, 'nb': 5, 'eps': 2.0 ** -6, 'adj': True, 'nested': [0, 1], 'tie': 1,
+    {'name': 'k2-threshold-parameter-first', 'k': 2, 'multinom': False, 'nb': 5, 'eps': 2.0 ** -7, 'adj': False, 'nested': [0], 'tie': [0],
+     'ops': ('lrt', 'wald', 'score')},
+    {'name': 'k2-both-on-threshold', 'k': 2, 'multinom': False, 'nb': 6, 'eps': 2.0 ** -7, 'adj': False, 'nested': [1], 'tie': [0, 1],
+     'ops': ('gim', 'godambe', 'wald', 'score')},
+    {'name': 'k2-both-on-threshold-theta-adjusts', 'k': 2, 'multinom': False, 'nb': 6, 'eps': 2.0 ** -6, 'adj': True, 'nested': [0, 1], 'tie': [0, 1],
      'ops': ('gim', 'lrt')},
 ]
 MASK_CONFIGS = [      # data / bootstraps with entries masked beyond the corners; folded spectra with an unfolded model function
@@ -516,9 +522,9 @@ MASK_CONFIGS = [      # data / bootstraps with entries masked beyond the corners
      'ops': ('fim', 'gim', 'lrt')},
     {'name': 'k1-folded-even', 'k': 1, 'multinom': False, 'nb': 3, 'eps': 2.0 ** -7, 'adj': False, 'nested': [0], 'n': (10, 10), 'folded': True,
      'ops': ('fim', 'gim', 'lrt')},
-    {'name': 'k1-folded-theta-augmented', 'k': 1, 'multinom': True, 'nb': 4, 'eps': 2.0 ** -8, 'nested': [0], 'n': (12, 16), 'folded': True,
+    {'name': 'k1-folded-theta-augmented', 'k': 1, 'multinom': True, 'nb': 6, 'eps': 2.0 ** -8, 'nested': [0], 'n': (12, 16), 'folded': True,
      'ops': ('fim', 'gim', 'lrt')},
-    {'name': 'k2-folded-odd-masked', 'k': 2, 'multinom': False, 'nb': 5, 'eps': 2.0 ** -7, 'adj': True, 'nested': [0], 'n': (13, 13), 'folded': True,
+    {'name': 'k2-folded-odd-masked', 'k': 2, 'multinom': False, 'nb': 7, 'eps': 2.0 ** -7, 'adj': True, 'nested': [0], 'n': (13, 13), 'folded': True,
      'dmask': 1, 'bmask': 1, 'ops': ('fim', 'gim', 'lrt')},
 ]
 
@@ -580,7 +586,7 @@ def seq_setup(rng):
     for n in (n1, n2):
         mean = sum(np.asarray(table[(n, g)](p, [n], list(g)).data) for g in (g1, g2) for p in ps) / 4.0
         data[n] = [poisson_like(rng, mean), poisson_like(rng, mean)]
-        boots[n] = [poisson_like(rng, mean) for _ in range(5)]
+        boots[n] = [poisson_like(rng, mean) for _ in range(8)]      # (k + theta = 3 parameters: J needs clearly more bootstraps)
     return {'func': SeqModel(table), 'n': (n1, n2), 'g': (g1, g2), 'p': ps, 'eps': eps, 'data': data, 'boots': boots}
 
 
@@ -667,16 +673,18 @@ def seq_step_in(case, fn, varied):
             'persistent': fn == 'godambe' or (fn in ('fim', 'gim') and not case['multinom']), 'multinom': bool(case['multinom']), 'varied': varied}
 
 
-def seq_records(nid, su, words, okmap):
+def seq_records(nid, sus, words, okmaps):
     recs, dropped = [], []
-    memo = {}
+    memos = [{} for _ in sus]
     for name, steps, tag in words:
-        if any('log' not in st and fn not in okmap.get(st, ()) for fn, st, _ in steps):
+        fit = [j for j in range(len(sus)) if all('log' in st or fn in okmaps[j].get(st, ()) for fn, st, _ in steps)]
+        if not fit:
             dropped.append(name)
             continue
+        su = sus[fit[0]]
         cases = [seq_case(su, st) for _, st, _ in steps]
         fns = [fn for fn, _, _ in steps]
-        out = run_word(su['func'], cases, fns, memo, [(fn, st) for fn, st, _ in steps])
+        out = run_word(su['func'], cases, fns, memos[fit[0]], [(fn, st) for fn, st, _ in steps])
         inp = {'word': name, 'table': su['func'].enc_table(), 'steps': [seq_step_in(c, fn, v) for c, (fn, _, v) in zip(cases, steps)]}
         recs.append({'id': 'callseq-%d' % next(nid), 'op': 'callseq', 'site': 'Godambe.cache@vary-' + tag, 'in': inp, 'out': out})
     return recs, dropped
@@ -1052,11 +1060,11 @@ def records(ctx):
     # masked / folded spectra (3)
     r1, r2, r3 = (random.Random(ctx.seed + 1900 + k) for k in (1, 2, 3))
     thr = threshold_records(ctx, r1, nid)
-    ncand = 3 if ctx.quick else 6
+    ncand = 4 if ctx.quick else 8
     tie_cases = named_cases(r1, TIE_CONFIGS, ncand)
     mask_cases = named_cases(r3, MASK_CONFIGS, ncand)
     words = seq_words(r2, ctx.quick)
-    seq_sus = [seq_setup(r2) for _ in range(2 if ctx.quick else 4)]
+    seq_sus = [seq_setup(r2) for _ in range(3 if ctx.quick else 5)]
     seq_sc = [seq_screen_cases(su, words) for su in seq_sus]
     groups = [det + rnd, flat, tie_cases, mask_cases] + seq_sc
     ok = screen([c for g in groups for c in g])        # one TLC pass decides which closed-form comparisons are decidable
@@ -1076,17 +1084,11 @@ def records(ctx):
     t_recs, t_missing = named_records(nid, TIE_CONFIGS, tie_cases, oks[2], ncand, '@threshold')
     m_recs, m_missing = named_records(nid, MASK_CONFIGS, mask_cases, oks[3], ncand, '@masked')
     recs += t_recs + m_recs
-    # call sequences: of the candidate setups the one for which TLC can decide the most words
-    def okmap(j):
-        return {c['state']: o for c, o in zip(seq_sc[j], oks[4 + j])}
-
-    def usable(j):
-        m = okmap(j)
-        return sum(all('log' in stt or fn in m.get(stt, ()) for fn, stt, _ in steps) for _, steps, _ in words)
-    best = max(range(len(seq_sus)), key=usable)
-    if 2 * usable(best) < len(words):
-        raise common.MachineryError('C19 call sequences: no candidate setup is decidable for at least half of the words')
-    s_recs, s_dropped = seq_records(nid, seq_sus[best], words, okmap(best))
+    # call sequences: every word on the first candidate setup for which TLC can decide all of its steps
+    okmaps = [{c['state']: o for c, o in zip(seq_sc[j], oks[4 + j])} for j in range(len(seq_sus))]
+    s_recs, s_dropped = seq_records(nid, seq_sus, words, okmaps)
+    if 2 * len(s_dropped) > len(words):
+        raise common.MachineryError('C19 call sequences: no candidate setup is decidable for more than half of the words')
     recs += s_recs
     extra.update({'threshold_and_masked_configurations': [c['name'] for c in TIE_CONFIGS + MASK_CONFIGS],
                   'threshold_and_masked_configurations_without_decidable_case': t_missing + m_missing,
@@ -1110,6 +1112,12 @@ def run(ctx):
             if r.ok or 'L_CacheCoherent' not in (r.violation or ''):
                 raise common.MachineryError('GodambeMC_cache_hashkey.cfg: the hash-keyed cache model was not rejected (%s)' % r.violation)
             extra['negative_model'] = 'GodambeMC_cache_hashkey.cfg (key = number derived from the address): TLC finds the incoherent history in %d states' % r.states
+            # ... and so must a key that leaves out a component of the point (grid points / sample sizes / parameters)
+            for name in ('dropgrid', 'dropns', 'dropparams'):
+                r = common.tlc('GodambeMC', 'GodambeMC_cache_%s.cfg' % name, workers=2)
+                if r.ok or 'L_CacheCoherent' not in (r.violation or ''):
+                    raise common.MachineryError('GodambeMC_cache_%s.cfg: the cache model with an incomplete key was not rejected (%s)' % (name, r.violation))
+                extra['negative_model_' + name] = 'GodambeMC_cache_%s.cfg (key without that component of <<params, ns, grid_pts>>): TLC finds the incoherent history in %d states' % (name, r.states)
     mcs = [('GodambeMC', 'GodambeMC_%s_%s.cfg' % (m, ctx.tier)) for m in ('stencil', 'stats', 'cache')]
     return common.pipeline(
         ctx, mcs, 'Trace_Godambe', recs, key_of=key_of, what_of=what_of, nontrivial_of=nontrivial, mutator=mutate, extra_cov=extra,
@@ -1120,13 +1128,25 @@ def run(ctx):
              'last / all, Wald full_params as nested values or entire list, bootstraps as plain arrays, nested indices as array, scalar-return '
              'code paths), each with a reversed or rotated bootstrap list; sum_chi2_ppf for float / numpy float / int / numpy int / list / tuple / '
              '1-D / 2-D / integer / negative arrays and weights as tuple / list / array; every call word of length <= 2 (3 thorough) over '
-             '{A,B}x{FIM,LRT}x{named,transient} and fixed words with GIM / Wald / score.  Plus random cases of each kind (more in thorough); '
-             'distinct by the tuples of nontrivial()',
+             '{A,B}x{FIM,LRT}x{named,transient} and fixed words with GIM / Wald / score; parameters exactly on and one unit in the last '
+             'place either side of the thresholds of the stencil choice (p*eps == 1e-6 for eight step sizes, p == 0: smallest subnormal / '
+             'normal doubles of both signs, -0.0), alone and inside longer vectors, in get_hess / get_grad and - with the model rescaled so '
+             'that one or both parameters sit on the threshold - through FIM / GIM / LRT / Wald / score / get_godambe; data and bootstraps '
+             'with interior entries masked (numbers left under the masks; a mask of its own per bootstrap) and folded spectra with an '
+             'unfolded model function, multinom False and True; call sequences on ONE model function object (base / one argument changed / '
+             'base, for each of grid_pts, p0, ns, data, multinom, log, eps and each of FIM_uncert, GIM_uncert, get_godambe; walks changing '
+             'one argument per call; a word mixed with LRT_adjust), every call judged against the closed form of its own arguments and '
+             'against the same call on an empty cache.  Plus random cases of each kind (more in thorough); distinct by the tuples of nontrivial()',
         assumptions=['stencil records: |observed - stencil(exact f)| <= 1e-13 * |f|_terms / (h_i h_j)  (float evaluation of f at the stencil points)',
                      'closed-form records: parameters positive and central differences (p*eps >= 1e-6); truncation bound '
                      '2 eps^2/(1-eps)^4 * (positive part of the information), eps^2/(3(1-eps)^3) * (positive part of the score), plus '
                      'round-off 1e-13 * sum|ll terms| / (h_a h_b), propagated to first order (factor 2) through products and inverses; '
                      'cases whose perturbation is too large for the first-order bounds (rho > 1/4) are screened out by TLC before the run',
-                     'log=True (derivatives in log parameters) is not exercised',
+                     'log=True (derivatives in log parameters) has no closed form here: such calls occur only inside call sequences and are '
+                     'judged by history independence (same result as the same call on an empty cache) alone',
+                     'a parameter whose exact product p*eps lies within 1e-15 (relative) of 1e-6 is on the threshold of the step rule as far as '
+                     'double precision can tell: get_hess / get_grad may use either stencil there (one choice per parameter, points and divisor '
+                     'of the same stencil); the closed-form records demand the O(eps^2) agreement of the statement there as everywhere',
+                     'folded spectra: one population, minor-allele folding (entry i and n-i summed into the lower one)',
                      'chi-square cdf table from a stdlib power series of the incomplete gamma function, tolerance 1e-10',
                      'bootstrap order: outputs of the two orders agree to 1e-8 of the largest output (summation round-off only)'])
